@@ -51,19 +51,21 @@ func drawCoinbase(t *rapid.T, tn *testNode, height uint32, reward common.Fixed64
 	rest := reward
 	for i := 0; i < nOut; i++ {
 		var v common.Fixed64
-		switch rapid.IntRange(0, 5).Draw(t, "cbValueKind") {
+		c30 := common.Fixed64(math.Ceil(float64(reward) * 0.3))
+		c35 := common.Fixed64(math.Ceil(float64(reward) * 0.35))
+		switch rapid.IntRange(0, 7).Draw(t, "cbValueKind") {
 		case 0:
 			v = gen.Fixed64().Draw(t, "cbValue")
 		case 1:
 			v = 0
-		default: // an honest looking split
-			switch i {
-			case 0:
-				v = common.Fixed64(math.Ceil(float64(reward) * 0.3))
-			case nOut - 1:
-				v = rest
-			default:
-				v = common.Fixed64(math.Ceil(float64(reward) * 0.35))
+		case 2:
+			v = rest
+		default: // the amounts the reward rules of the different eras compare with
+			natural := []common.Fixed64{c30, reward - c30 - c35, c35, reward - c30, reward - c35}
+			if i < 3 && rapid.IntRange(0, 3).Draw(t, "cbNatural") != 0 {
+				v = natural[i]
+			} else {
+				v = rapid.SampledFrom(natural).Draw(t, "cbCandidate")
 			}
 		}
 		rest -= v
@@ -318,11 +320,22 @@ func exerciseBlock(t vk.TB, tn *testNode, wire []byte) (stage string) {
 }
 
 func runBlockUnit(t *testing.T, profile string, blocks int) {
-	tn, err := newTestNode(profile, blocks)
+	nodeProfile := profile
+	if profile == "late-dposv2" {
+		nodeProfile = "late"
+	}
+	tn, err := newTestNode(nodeProfile, blocks)
 	if err != nil {
 		t.Fatalf("harness: node: %v", err)
 	}
 	defer tn.Close()
+	if profile == "late-dposv2" {
+		// the DPoS v2 reward rule (three-output coinbase) applies above the
+		// height at which DPoS v2 became active; a real chain records that height
+		// in the arbiters' state once enough v2 producers are staked. Only this
+		// one field is set, and only the stateless block checks run on this node.
+		tn.Arbiters.DPoSV2ActiveHeight = tn.Chain.GetHeight() - 3
+	}
 	rapid.Check(t, func(t *rapid.T) {
 		wire, m := drawBlock(t, tn, profile)
 		stage := "unserializable"
@@ -338,6 +351,7 @@ func runBlockUnit(t *testing.T, profile string, blocks int) {
 
 func TestBlockLegacy(t *testing.T) { runBlockUnit(t, "legacy", 6) }
 func TestBlockLate(t *testing.T)   { runBlockUnit(t, "late", 34) }
+func TestBlockDPoSV2(t *testing.T) { runBlockUnit(t, "late-dposv2", 34) }
 
 // The same blocks through the real entry point (the block may connect, be
 // kept as an orphan or be refused).
